@@ -1,7 +1,305 @@
-//! Readers, fixed-point conversion, FIBEX.
-use crate::ops::Outcome;
+//! Readers (C07 blocking, C08 async): the byte source follows a schedule taken from the case.
+use crate::ops::{w_parse_err, w_parsed, Outcome};
 use crate::wire::*;
+use dlt_core::dlt::*;
+use dlt_core::filtering::{DltFilterConfig, ProcessedDltFilterConfig};
+use dlt_core::parse::{dlt_message, DltParseError, ParsedMessage};
+use dlt_core::read::DltMessageReader;
+use dlt_core::stream::DltStreamReader;
+use std::collections::VecDeque;
+use std::panic::{catch_unwind, AssertUnwindSafe};
+use std::pin::Pin;
+use std::task::{Context, Poll};
 
-pub fn run_case4(_prop: &str, op: u32, _toks: &[Tok]) -> Outcome {
-    panic!("unknown op {}", op)
+const DEFAULT_CAP: usize = 10 * 1024 * 1024;
+const MESSAGE_MAX_LEN: usize = 16 + 65535;
+
+/// What the caller of read_message observes, one per call (model: Reader.outcome)
+#[derive(Clone, Debug, PartialEq)]
+pub enum Obs {
+    Msg(Vec<Tok>), // w_parsed tokens
+    Err(Vec<Tok>), // w_parse_err tokens
+    Panic,
 }
+impl Obs {
+    fn kind(&self) -> u8 {
+        match self {
+            Obs::Msg(_) => 0,
+            Obs::Err(t) => match t.first() {
+                Some(Tok::N(1)) => 1,
+                Some(Tok::N(2)) => 2,
+                _ => 3,
+            },
+            Obs::Panic => 4,
+        }
+    }
+}
+
+fn obs_of(r: Result<Option<ParsedMessage>, DltParseError>) -> Option<Obs> {
+    match r {
+        Ok(None) => None,
+        Ok(Some(pm)) => {
+            let mut w = W::new();
+            w_parsed(&mut w, &pm);
+            Some(Obs::Msg(w.0))
+        }
+        Err(e) => {
+            let mut w = W::new();
+            w_parse_err(&mut w, &e);
+            Some(Obs::Err(w.0))
+        }
+    }
+}
+
+fn w_obs_list(w: &mut W, l: &[Obs], finished: bool) {
+    w.n(l.len() as u128);
+    for o in l {
+        match o {
+            Obs::Msg(t) => {
+                w.n(0);
+                w.0.extend(t.iter().cloned());
+            }
+            Obs::Err(t) => {
+                w.n(1);
+                w.0.extend(t.iter().cloned());
+            }
+            Obs::Panic => w.n(9),
+        }
+    }
+    w.bool(finished);
+}
+
+/// std::io::Read over (stream, schedule): entry 0 = Interrupted, k > 0 = at most k bytes,
+/// exhausted schedule = as much as fits.  Ok(0) only at the true end.
+struct SchedSource {
+    data: Vec<u8>,
+    pos: usize,
+    sched: VecDeque<u64>,
+}
+impl SchedSource {
+    fn grant(&mut self, buf_len: usize) -> Option<usize> {
+        let remaining = self.data.len() - self.pos;
+        match self.sched.pop_front() {
+            Some(0) => None,
+            Some(k) => Some((k.min(usize::MAX as u64) as usize).min(buf_len).min(remaining)),
+            None => Some(buf_len.min(remaining)),
+        }
+    }
+}
+impl std::io::Read for SchedSource {
+    fn read(&mut self, buf: &mut [u8]) -> std::io::Result<usize> {
+        match self.grant(buf.len()) {
+            None => Err(std::io::Error::new(std::io::ErrorKind::Interrupted, "scheduled interruption")),
+            Some(n) => {
+                buf[..n].copy_from_slice(&self.data[self.pos..self.pos + n]);
+                self.pos += n;
+                Ok(n)
+            }
+        }
+    }
+}
+impl futures::io::AsyncRead for SchedSource {
+    fn poll_read(mut self: Pin<&mut Self>, cx: &mut Context<'_>, buf: &mut [u8]) -> Poll<std::io::Result<usize>> {
+        match self.grant(buf.len()) {
+            None => {
+                cx.waker().wake_by_ref();
+                Poll::Pending
+            }
+            Some(n) => {
+                let pos = self.pos;
+                buf[..n].copy_from_slice(&self.data[pos..pos + n]);
+                self.pos += n;
+                Poll::Ready(Ok(n))
+            }
+        }
+    }
+}
+
+fn cap_of(c: u128) -> usize {
+    if c == 0 {
+        DEFAULT_CAP
+    } else {
+        (c as usize).max(MESSAGE_MAX_LEN)
+    }
+}
+
+pub fn run_blocking(sh: bool, f: &Option<DltFilterConfig>, cap: usize, sched: &[u64], data: &[u8]) -> (Vec<Obs>, bool) {
+    let pf: Option<ProcessedDltFilterConfig> = f.as_ref().map(|c| c.into());
+    let src = SchedSource { data: data.to_vec(), pos: 0, sched: sched.iter().cloned().collect() };
+    let mut out = vec![];
+    let limit = data.len() + 1;
+    let mut reader = match catch_unwind(AssertUnwindSafe(|| DltMessageReader::with_capacity(cap, MESSAGE_MAX_LEN, src, sh))) {
+        Ok(r) => r,
+        Err(_) => return (vec![Obs::Panic], true),
+    };
+    for _ in 0..limit {
+        match catch_unwind(AssertUnwindSafe(|| dlt_core::read::read_message(&mut reader, pf.as_ref()))) {
+            Err(_) => {
+                out.push(Obs::Panic);
+                return (out, true);
+            }
+            Ok(r) => match obs_of(r) {
+                None => return (out, true),
+                Some(o) => out.push(o),
+            },
+        }
+    }
+    (out, false)
+}
+
+pub fn run_async(sh: bool, f: &Option<DltFilterConfig>, cap: usize, sched: &[u64], data: &[u8]) -> (Vec<Obs>, bool) {
+    let pf: Option<ProcessedDltFilterConfig> = f.as_ref().map(|c| c.into());
+    let src = SchedSource { data: data.to_vec(), pos: 0, sched: sched.iter().cloned().collect() };
+    let mut out = vec![];
+    let limit = data.len() + 1;
+    let mut reader = match catch_unwind(AssertUnwindSafe(|| DltStreamReader::with_capacity(cap, MESSAGE_MAX_LEN, src, sh))) {
+        Ok(r) => r,
+        Err(_) => return (vec![Obs::Panic], true),
+    };
+    for _ in 0..limit {
+        match catch_unwind(AssertUnwindSafe(|| futures::executor::block_on(dlt_core::stream::read_message(&mut reader, pf.as_ref())))) {
+            Err(_) => {
+                out.push(Obs::Panic);
+                return (out, true);
+            }
+            Ok(r) => match obs_of(r) {
+                None => return (out, true),
+                Some(o) => out.push(o),
+            },
+        }
+    }
+    (out, false)
+}
+
+/// "cut the byte stream at the declared message lengths and parse each piece", written from the
+/// property text on the implementation's own slice parser
+fn slicing(sh: bool, f: &Option<DltFilterConfig>, data: &[u8]) -> Vec<Obs> {
+    let pf: Option<ProcessedDltFilterConfig> = f.as_ref().map(|c| c.into());
+    let storage = if sh { 16 } else { 0 };
+    let hdr = storage + 4;
+    let mut out = vec![];
+    let mut s = data;
+    loop {
+        if s.len() < hdr {
+            return out; // end of stream
+        }
+        let l = ((s[storage + 2] as usize) << 8) | s[storage + 3] as usize;
+        if l < 4 {
+            // a length smaller than its own header: an error, reading goes on behind the header bytes
+            let mut w = W::new();
+            w.n(2);
+            out.push(Obs::Err(w.0));
+            s = &s[hdr..];
+            continue;
+        }
+        if s.len() < storage + l {
+            let mut w = W::new();
+            w.n(3);
+            out.push(Obs::Err(w.0));
+            return out; // truncated tail: an error, never a message
+        }
+        let piece = &s[..storage + l];
+        match catch_unwind(AssertUnwindSafe(|| dlt_message(piece, pf.as_ref(), sh).map(|x| x.1))) {
+            Err(_) => {
+                out.push(Obs::Panic);
+                return out;
+            }
+            Ok(Ok(pm)) => {
+                let mut w = W::new();
+                w_parsed(&mut w, &pm);
+                out.push(Obs::Msg(w.0));
+            }
+            Ok(Err(e)) => {
+                let mut w = W::new();
+                w_parse_err(&mut w, &e);
+                out.push(Obs::Err(w.0));
+            }
+        }
+        s = &s[storage + l..];
+    }
+}
+
+fn read_case(toks: &[Tok]) -> (bool, Option<DltFilterConfig>, usize, Vec<u64>, Vec<u8>) {
+    let mut r = R::new(toks);
+    let sh = r.bool();
+    let f = r.opt_filter();
+    let cap = cap_of(r.n());
+    let n = r.n();
+    let sched: Vec<u64> = (0..n).map(|_| r.n() as u64).collect();
+    let data = r.b();
+    (sh, f, cap, sched, data)
+}
+
+fn describe(l: &[Obs]) -> String {
+    l.iter().map(|o| o.kind().to_string()).collect::<Vec<_>>().join("")
+}
+
+/// 40 READ
+fn op_read(toks: &[Tok], prop: &str) -> Outcome {
+    let (sh, f, cap, sched, data) = read_case(toks);
+    let (obs, fin) = run_blocking(sh, &f, cap, &sched, &data);
+    let mut w = W::new();
+    w_obs_list(&mut w, &obs, fin);
+    let mut oracle = vec![];
+    if prop == "C07" {
+        if obs.contains(&Obs::Panic) {
+            oracle.push(("no_panic".into(), format!("the reader panicked after {} outcomes", obs.len() - 1)));
+        }
+        if !fin {
+            oracle.push(("terminates".into(), "read_message did not report end of stream within len+1 calls".into()));
+        }
+        let want = slicing(sh, &f, &data);
+        if obs != want {
+            oracle.push((
+                "equals_slicing".into(),
+                format!("reader outcomes {} differ from cutting at the declared lengths {} (0 msg,1 incomplete,2 hickup,3 unrecoverable,4 panic)", describe(&obs), describe(&want)),
+            ));
+        }
+        // fragmentation independence on the implementation itself
+        let (plain, _) = run_blocking(sh, &f, DEFAULT_CAP.min(cap.max(MESSAGE_MAX_LEN)), &[], &data);
+        if plain != obs {
+            oracle.push(("fragmentation_independent".into(), format!("with this schedule {} but with whole reads {}", describe(&obs), describe(&plain))));
+        }
+    }
+    Outcome { result: w.0, oracle }
+}
+
+/// 41 ASYNC
+fn op_async(toks: &[Tok], prop: &str) -> Outcome {
+    let (sh, f, cap, sched, data) = read_case(toks);
+    let (obs, fin) = run_async(sh, &f, cap, &sched, &data);
+    let mut w = W::new();
+    w_obs_list(&mut w, &obs, fin);
+    let mut oracle = vec![];
+    if prop == "C08" {
+        if obs.contains(&Obs::Panic) {
+            oracle.push(("no_panic".into(), format!("the async reader panicked after {} outcomes", obs.len() - 1)));
+        }
+        if !fin {
+            oracle.push(("terminates".into(), "read_message did not report end of stream within len+1 calls".into()));
+        }
+        let (blocking, bfin) = run_blocking(sh, &f, cap, &[], &data);
+        // same messages, then the same kind of terminal outcome (error class)
+        let same = obs.len() == blocking.len()
+            && bfin == fin
+            && obs.iter().zip(blocking.iter()).all(|(a, b)| match (a, b) {
+                (Obs::Msg(x), Obs::Msg(y)) => x == y,
+                (a, b) => a.kind() == b.kind(),
+            });
+        if !same {
+            oracle.push(("equals_blocking".into(), format!("async {} vs blocking {}", describe(&obs), describe(&blocking))));
+        }
+    }
+    Outcome { result: w.0, oracle }
+}
+
+pub fn run_case4(prop: &str, op: u32, toks: &[Tok]) -> Outcome {
+    match op {
+        40 => op_read(toks, prop),
+        41 => op_async(toks, prop),
+        _ => crate::ops5::run_case5(prop, op, toks),
+    }
+}
+
+#[allow(dead_code)]
+fn _unused(_: Message) {}
